@@ -25,7 +25,8 @@ type c03Cand struct {
 	Expelled  uint   // expelled nodes
 	Signers   []uint // per expelled node (ascending node index): who signed its expel operation
 	ListFacts bool   // the majority fact lists the expel facts
-	Tweak     string // "", "dup-voter", "foreign-voter", "foreign-signer"
+	Tweak     string // "", "dup-voter", "foreign-voter", "foreign-signer", "borrowed-key"
+	KeyOf     int    // borrowed-key: index of the single node whose key signs every sign fact (each still claims its voter's address)
 }
 
 func (c c03Cand) String() string {
@@ -34,8 +35,8 @@ func (c c03Cand) String() string {
 		ss[i] = fmt.Sprintf("%b", c.Signers[i])
 	}
 
-	return fmt.Sprintf("n=%d %s maj=%c votes=%0*b other=%0*b expelled=%0*b signers=[%s] listed=%v tweak=%q",
-		c.N, c.Stage, "XY"[c.Maj], c.N, c.VoteMaj, c.N, c.VoteOther, c.N, c.Expelled, strings.Join(ss, ","), c.ListFacts, c.Tweak)
+	return fmt.Sprintf("n=%d %s maj=%c votes=%0*b other=%0*b expelled=%0*b signers=[%s] listed=%v tweak=%q keyof=%d",
+		c.N, c.Stage, "XY"[c.Maj], c.N, c.VoteMaj, c.N, c.VoteOther, c.N, c.Expelled, strings.Join(ss, ","), c.ListFacts, c.Tweak, c.KeyOf)
 }
 
 var c03Point = base.RawPoint(33, 1)
@@ -96,6 +97,27 @@ func c03build(c c03Cand, th base.Threshold) base.Voteproof {
 	var sfs []base.BallotSignFact
 
 	sign := func(f base.BallotFact, node base.LocalNode) base.BallotSignFact {
+		if c.Tweak == "borrowed-key" && !node.Address().Equal(gen.Local(c.KeyOf).Address()) {
+			// a sign fact that names `node` but is signed with another member's key (valid signature of that key)
+			key := gen.Local(c.KeyOf)
+
+			if c.Stage == base.StageINIT {
+				sf := isaac.NewINITBallotSignFact(f.(base.INITBallotFact)) //nolint:forcetypeassert //...
+				if err := sf.NodeSign(key.Privatekey(), gen.NetworkID, node.Address()); err != nil {
+					panic(err)
+				}
+
+				return sf
+			}
+
+			sf := isaac.NewACCEPTBallotSignFact(f.(base.ACCEPTBallotFact)) //nolint:forcetypeassert //...
+			if err := sf.NodeSign(key.Privatekey(), gen.NetworkID, node.Address()); err != nil {
+				panic(err)
+			}
+
+			return sf
+		}
+
 		if c.Stage == base.StageINIT {
 			return gen.SignINIT(f.(base.INITBallotFact), node) //nolint:forcetypeassert //...
 		}
@@ -201,7 +223,7 @@ func TestC03(t *testing.T) {
 	defer r.Finish()
 	r.Rule("one stage point (INIT and ACCEPT), two facts X,Y, suffrage n; candidates = every assignment of nodes to {absent, votes the declared majority, expelled} " +
 		"x canonical expel-signer sets of every size class the validator distinguishes {1,req-1,req,n-k-1,n-k,n-1} (live-first and expelled-first) " +
-		"x {majority fact lists the expel facts or not}, every plain assignment to {absent, votes majority, votes the other fact}, x tweaks {duplicate voter, foreign voter, foreign expel signer}; real signed voteproofs, accepted = vp.IsValid && isaac.IsValidVoteproofWithSuffrage; " +
+		"x {majority fact lists the expel facts or not}, every plain assignment to {absent, votes majority, votes the other fact}, x tweaks {duplicate voter, foreign voter, foreign expel signer, one member signing the other voters' sign facts with its own key}; real signed voteproofs, accepted = vp.IsValid && isaac.IsValidVoteproofWithSuffrage; " +
 		"plus rapid-drawn voteproofs with minority votes and arbitrary signer sets. Every pair (accepted for X, accepted for Y) is judged: equivocators = nodes signing different facts in the two. " +
 		"non-trivial = distinct pair of accepted voteproofs with different majorities (the pair reached the predicate)")
 	r.Floor(20)
@@ -300,6 +322,18 @@ func TestC03(t *testing.T) {
 								c.VoteMaj |= 1 << uint(n)
 							}
 
+							try(c)
+						}
+
+						// one member signs the votes of the others with its own key
+						for k := 0; k < n; k++ {
+							if votes&(1<<uint(k)) == 0 || votes == 1<<uint(k) {
+								continue
+							}
+
+							c := base0
+							c.Tweak = "borrowed-key"
+							c.KeyOf = k
 							try(c)
 						}
 
@@ -448,7 +482,15 @@ func c03pairs(t ev.TB, r *ev.Rec, n, t10, f, req int, accX, accY []c03Cand) {
 			// a declares X; b declares Y. A node equivocates if it signed different facts in the two voteproofs.
 			// in a: VoteMaj -> X, VoteOther -> Y.   in b: VoteMaj -> Y, VoteOther -> X.
 			all := uint(1)<<uint(n) - 1 // suffrage nodes only: a foreign signer is not a suffrage node
-			eq := ((a.VoteMaj & b.VoteMaj) | (a.VoteOther & b.VoteOther)) & all
+			// who really signed: with a borrowed key only the key's owner signed anything
+			signed := func(c c03Cand, m uint) uint {
+				if c.Tweak == "borrowed-key" && m != 0 {
+					return 1 << uint(c.KeyOf)
+				}
+
+				return m
+			}
+			eq := ((signed(a, a.VoteMaj) & signed(b, b.VoteMaj)) | (signed(a, a.VoteOther) & signed(b, b.VoteOther))) & all
 			neq := bits.OnesCount(eq)
 
 			fp := "pair|" + a.String() + "|" + b.String()
